@@ -286,8 +286,11 @@ impl Acc {
     }
 }
 impl Accessor for Acc {
+    /// the accessor type *has* a default (declaring nothing); the crate must nevertheless ask
+    /// the system's own `accessor()`, which `HSys` overrides — code that prefers the default sees
+    /// empty access sets
     fn try_new() -> Option<Self> {
-        None
+        Some(Acc { tag: 0, decl_r: vec![], decl_w: vec![], shared: Shared::new(1), path: vec![], borrow: false })
     }
     fn reads(&self) -> Vec<ResourceId> {
         self.decl_r.iter().map(|&r| rid(r)).collect()
